@@ -106,3 +106,40 @@ Definition walk_names (alen : nat) (q : rname) : list rname :=
 (* dnsutil.HasNSEC3OptOut on the NSEC3 records of the authority section *)
 Definition has_optout3 (signer : rname) (recs : list nsec3) : bool :=
   existsb (fun r => prefix_b signer (canon (r_zone r)) && negb (N.land (r_flags r) optout_mask_cut =? 0)) recs.
+
+(* ---- wildcard.go, VerifyWildcardAnswerForZoneWithWork (round 6): every RRSIG of the Answer section whose Labels
+   field is smaller than its owner's label count was expanded from the wildcard at the last [labels] labels of
+   the owner (the closest encloser); the Authority section must then hold an NSEC covering the next closer name
+   (nsecCovers, any NSEC of the section) or, through the prepared NSEC3 ring bound to the signer, an NSEC3
+   covering its hash — an Opt-Out cover validates the expansion but clears the secure flag.  No cover:
+   ErrWildcardNoDenial (class other).  Accepting an expansion is accepting the denial "the next closer name
+   does not exist".  sigs = (owner, Labels) in Answer order, owners canonical and root first. *)
+(* finding wildcard-nextcloser-ent (round 6): as found, the NSEC branch accepts a cover whose NextDomain lies BELOW the
+   next closer name — the next closer name is then an empty non-terminal, it exists.  props/C02/fix-wildcard-ent.patch
+   adds the test nsecNextBelow; the model follows the source: [wild_cover_extra] is what the condition holds beyond
+   nsecCovers(...) (empty as found) *)
+Definition wild_ent_fixed : bool := match wild_cover_extra with [[]] => false | _ => true end.
+Fixpoint wild_answer (sigs : list (rname * N)) (nsecs : list cnsec) (recs3 : list nsec3) (signer : rname) (tab : htab)
+  (secure : bool) : err * bool :=
+  match sigs with
+  | [] => (E_ok, secure)
+  | (owner, labels) :: t =>
+      if (length owner <=? N.to_nat labels)%nat then wild_answer t nsecs recs3 signer tab secure else
+      let nc := firstn (N.to_nat labels + 1) owner in
+      if existsb (fun r => nsec_covers (c_owner r) (c_next r) nc && negb (wild_ent_fixed && strict_prefix_b nc (c_next r))) nsecs
+      then wild_answer t nsecs recs3 signer tab secure else
+      match recs3 with
+      | [] => (E_other, false)
+      | _ => match prepare_set recs3 signer with
+             | None => (E_missing, false)
+             | Some g => match lookup3 g tab nc with
+                         | LK_err e => (e, false)
+                         | LK _ (Some c) => wild_answer t nsecs recs3 signer tab (secure && negb (opt_out c))
+                         | LK _ None => (E_other, false)
+                         end
+             end
+      end
+  end.
+(* the next closer names an accepted Answer denies *)
+Definition wild_denied (sigs : list (rname * N)) : list rname :=
+  flat_map (fun s => if (length (fst s) <=? N.to_nat (snd s))%nat then [] else [firstn (N.to_nat (snd s) + 1) (fst s)]) sigs.
